@@ -45,6 +45,11 @@ def peek_contract(facts):
                         er = ir.enum_ref(r.get("e"))
                         if er and er[1] == "BREAK":
                             special = True
+                    # the answer may go through a variable (a member that remembers it, a local) that the function then returns
+                    if r.get("k") == "Bin" and r.get("op") == "=" and path(r.get("lhs")) is not None:
+                        er = ir.enum_ref(r.get("rhs"))
+                        if er and er[1] == "BREAK" and any(path(x.get("e")) == path(r["lhs"]) for x in rets):
+                            special = True
     return ("BREAK" if special else "MAJOR"), f
 
 
@@ -772,7 +777,44 @@ def check_values(run, rule, flag_contract=True):
     run.floor(rule, 6, "value-semantics table")
 
 
+APPENDERS = ("push_back", "append", "operator+=", "reserve", "insert")
+REPLACERS = ("assign", "operator=", "clear", "resize", "erase", "swap", "pop_back", "replace")
+
+
+def check_string_accumulates(run, rule):
+    """read_string builds its result from every chunk: the returned string is only ever extended.  A store that replaces its
+    content (assign, =, clear ..) drops the chunks read so far - invisible for definite-length strings, which are one run."""
+    facts = run.facts
+    f = dfn(facts, "read_string", rule)
+    rets = [n for n in ir.walk(f["body"]) if n.get("k") == "Return" and n.get("e") is not None]
+    targets = set(path(r["e"]) for r in rets if path(r["e"]) is not None)
+    if len(targets) != 1:
+        run.ob(rule, "read_string:accumulates", None, f, f["line"], "read_string does not return one local string")
+        run.floor(rule, 1, "string accumulation")
+        return
+    tgt = list(targets)[0]
+    n = 0
+    for c in ir.walk(f["body"]):
+        nm = None
+        if c.get("k") == "MCall" and path(c.get("recv")) == tgt:
+            nm = callee_name(c)
+        elif c.get("k") == "OpCall" and c.get("args") and path(c["args"][0]) == tgt and c.get("op") in ("=", "+="):
+            nm = "operator" + c["op"]
+        if nm is None or nm in ("size", "length", "empty", "capacity", "data", "c_str", "begin", "end", "back", "front"):
+            continue
+        n += 1
+        ok = nm in APPENDERS and not (nm == "insert" and "begin" in show(c))
+        run.ob(rule, "read_string:%s#%d" % (nm, n), True if ok else (False if nm in REPLACERS else None), f, c.get("l", 0),
+               "the result is extended (%s)" % nm if ok else
+               ("%s() replaces what the result held: for an indefinite-length string every chunk after the first overwrites the chunks read "
+                "before it" % nm if nm in REPLACERS else "call %s() on the result string is not classified" % nm))
+    run.floor(rule, 2, "stores into the result of read_string")
+
+
 def check(run):
+    from . import C05
+    C05.check_window_state(run, "R07.10")       # a stale peek answers for the wrong item
+    check_string_accumulates(run, "R07.9")
     check_skip(run, "R07.1", "R07.3")
     # the level stack of skip_item: a reference to the innermost level must not be used after the stack grew (the count of
     # the enclosing level would be updated in freed memory and one item too many skipped)
